@@ -27,6 +27,7 @@ let table : (Stdlib.String.t * (z list -> z list)) list = [   (* Stdlib.: the ex
   ("idfrag", run_idfrag);
   ("idfrag_premises", run_idfrag_premises);
   ("enum", run_enum);
+  ("slice", run_slice);
   ("proxy", run_proxy);
   ("staticdecl", run_staticdecl);
   ("xmidoc_enc", run_xmidoc_enc);
